@@ -9,7 +9,7 @@ from ..opcheck import feature, gen_op_cases, rel_close, sig_of
 
 PROPERTY = "C01"
 LEVEL = "exploration"
-RULE = ("seeded configurations of the 16 public functions (pairwise-distinct dimension sizes, dtype, hyper-"
+RULE = ("seeded configurations of the 16 public functions (dimension sizes pairwise distinct in 3 cases of 4, two coinciding sizes in 1 of 6, a size of 1 in 1 of 12; in 30% of the cases the tensors arrive non-contiguous; dtype, hyper-"
         "parameters, constraint name); each is executed on two independent data draws against a hand-written PyTorch "
         "reference. A case is non-trivial when the reference output is not identically zero and both draws were "
         "fitted; distinct = distinct (function, constraint, dtype, shape/discrete-hyper-parameter) signatures. "
